@@ -746,6 +746,10 @@ class Fxp():
             # silently when scaled by 2**n_frac in their own type
             if val.dtype.kind in 'iu' and val.dtype.itemsize < 8:
                 vdtype = int
+            # and narrow float elements would be compared with the format limits in their own
+            # precision, missing an overflow by one code
+            elif val.dtype.kind == 'f' and val.dtype.itemsize < 8:
+                vdtype = float
         
         # scaling conversion
         self.scaled = False
